@@ -16,7 +16,7 @@ def gen_dataset(rng):
     attrs = ['col%d' % i for i in range(d)]
     shape = [int(gen.pick(rng, [2, 2, 3, 4, 6])) for _ in attrs]
     # round numbers are included on purpose: add/remove-one neighbours then straddle any threshold placed on them
-    N = int(gen.pick(rng, [2, 5, 10, 20, 50, 60, 100, 150, 300]))
+    N = int(gen.pick(rng, [0, 1, 2, 5, 10, 20, 50, 60, 100, 150, 300]))   # 0 / 1: the empty table is somebody's neighbour
     cols = []
     for s in shape:
         skew = gen.pick(rng, ['uniform', 'skewed', 'point'])
@@ -42,6 +42,8 @@ def neighbours(rng, shape, rows, bounded, k):
     counts = np.bincount(full, minlength=int(np.prod(shape)))
     for j in range(k):
         how = gen.pick(rng, ['hostile', 'random'])
+        if bounded and N == 0:
+            break       # replace-one adjacency: the empty table has no neighbour
         if bounded:
             i = int(rng.randint(N)) if how == 'random' else int(np.argmin(counts[full] + rng.rand(N) * 0.5))
             if how == 'hostile':
@@ -55,7 +57,7 @@ def neighbours(rng, shape, rows, bounded, k):
             r2[i] = new
             out.append(('replace', r2))
         else:
-            op = 'add' if (N < 3 or rng.rand() < 0.5) else 'remove'
+            op = 'add' if (N == 0 or rng.rand() < 0.5) else 'remove'
             if op == 'add':
                 if how == 'hostile':
                     cell = int(np.argmin(counts + rng.rand(counts.size) * 0.5)) if rng.rand() < 0.5 else int(np.argmax(counts))
